@@ -6,6 +6,8 @@
   * `Mix.*`    : the additive noise models on a `MixedStabilizer` (graphiq/noise/noise_models.py,
                  graphiq/backends/stabilizer/state.py) — `DepolarizingNoise` with its `factor > 0` filter and
                  `MixedStabilizer.reduce()` exactly as coded (it pops while enumerating), `PauliError`, `PhotonLoss`;
+                 `MixedStabilizer.apply_measurement`: `Mix.measure` (the joint measurement that repairs finding F2),
+                 `Mix.measureOld` (per branch: graphiq before that repair), `Mix.measureDraw` (probabilistic setting, scripted draw);
   * `DMx.*`    : the same noise models and the gates of `DensityMatrixCompiler.compile_one_gate` on an exact density matrix;
   * `assignNoise`, `unwrap`, `identifyNoise` : noise map → per-operation noise
                  (graphiq/circuit/circuit_dag.py `_noisy_gates`, `_find_wrapped_noise`; ops.py `OneQubitGateWrapper.unwrap`;
@@ -248,10 +250,51 @@ def applyNoise (nm : NoiseM) (q : Nat) (m : Mixture) : Except Err Mixture :=
   | .loss r _ => .ok (photonLoss r m)
   | _ => .error .runtime
 
-/-- `MixedStabilizer.apply_measurement`: every branch is measured on its own (forced outcome `det` when random) -/
-def measure (q : Nat) (det : Bool) (m : Mixture) : Mixture × List Bool :=
+/-- `MixedStabilizer.apply_measurement` **before the repair of finding F2** (graphiq before the `fix:` commit that introduces the
+    joint measurement): every branch is measured on its own (forced outcome `det` when random).  Kept for the historical
+    theorems and for checking an unrepaired /repo. -/
+def measureOld (q : Nat) (det : Bool) (m : Mixture) : Mixture × List Bool :=
   let res := m.map fun (p, t) => let (t', o, _) := t.zMeasure q det; ((p, t'.norm), o)
   (res.map (·.1), res.map (·.2))
+
+/-- one branch of the candidate list `cand[o]` of the repaired `apply_measurement`: `z_measurement_gate(t_i.copy(), q, o)`;
+    random in this branch (`x_p != 0`) → `(p_i / 2, t_o)`; deterministic with outcome `o` → `(p_i, t_o)`; otherwise nothing -/
+def jointBranch (q : Nat) (o : Bool) (x : Rat × Tab) : Option (Rat × Tab) :=
+  match x.2.pivot q with
+  | some _ => some (x.1 / 2, (x.2.zMeasure q o).1.norm)
+  | none => if (x.2.zMeasure q o).2.1 = o then some (x.1, (x.2.zMeasure q o).1.norm) else none
+
+/-- `cand[o]`: every branch projected on the same outcome `o` -/
+def measureJoint (q : Nat) (o : Bool) (m : Mixture) : Mixture := m.filterMap (jointBranch q o)
+
+/-- `MixedStabilizer.apply_measurement` (repaired: joint measurement of `Σ_i p_i ρ(T_i)`), forced setting `det ∈ {0,1}`:
+    `weight[o] = Σ cand[o]`, `total = weight[0] + weight[1]`; `det = 1`: outcome `0 if isclose(weight[1], 0) else 1`;
+    `det = 0`: outcome `1 if isclose(weight[0], 0) else 0`; if `weight[outcome] > 0` the branches of `cand[outcome]` with
+    weights `p * total / weight[outcome]`, else every branch measured with that outcome and weight `0.0 * p_i`; the outcome list
+    is `[outcome] * len(mixture)`. -/
+def measure (q : Nat) (det : Bool) (m : Mixture) : Mixture × List Bool :=
+  let w0 := total (measureJoint q false m)
+  let w1 := total (measureJoint q true m)
+  let tot := w0 + w1
+  let outcome : Bool := if det then !isclose0 w1 else isclose0 w0
+  let wo := if outcome then w1 else w0
+  let mix' : Mixture :=
+    if 0 < wo then (measureJoint q outcome m).map fun x => (x.1 * tot / wo, x.2)
+    else m.map fun x => (0 * x.1, (x.2.zMeasure q outcome).1.norm)
+  (mix', List.replicate mix'.length outcome)
+
+/-- the "probabilistic" setting of the repaired `apply_measurement`, the draw `u = np.random.random()` scripted:
+    `outcome = int(u * total >= weight[0]) if total > 0 else 0` (same candidate lists and renormalisation) -/
+def measureDraw (q : Nat) (u : Rat) (m : Mixture) : Mixture × List Bool :=
+  let w0 := total (measureJoint q false m)
+  let w1 := total (measureJoint q true m)
+  let tot := w0 + w1
+  let outcome : Bool := if 0 < tot then decide (w0 ≤ u * tot) else false
+  let wo := if outcome then w1 else w0
+  let mix' : Mixture :=
+    if 0 < wo then (measureJoint q outcome m).map fun x => (x.1 * tot / wo, x.2)
+    else m.map fun x => (0 * x.1, (x.2.zMeasure q outcome).1.norm)
+  (mix', List.replicate mix'.length outcome)
 
 /-- `apply_conditioned_gate` -/
 def conditioned (f : Tab → Tab) (outs : List Bool) (m : Mixture) : Mixture :=
@@ -326,6 +369,52 @@ def stabGate (np n : Nat) (det : Bool) (op : COp) (s : StabSt) : Except Err Stab
 
 def stabAct (np n : Nat) (det : Bool) (ops : Array COp) (s : StabSt) : Act → Except Err StabSt
   | .gate k => stabGate np n det (ops.getD k { kind := .identity }) s
+  | .noise _ _ q nm => (Mix.applyNoise nm q s.mix).map fun m => { s with mix := m }
+  | .replace _ => .error .runtime
+
+/-! ### the same with the per-branch measurement of graphiq before the F2 repair (`…Old`) -/
+
+/-- (before the F2 repair) measure `q1` in every branch, apply `f` to the branches whose outcome is 1, optionally reset `q1`, record `outcomes[0]` -/
+def stabClassicalOld (n q1 q2 c : Nat) (det : Bool) (f : Tab → Tab) (reset : Bool) (s : StabSt) : Except Err StabSt :=
+  if q1 < n ∧ q2 < n then
+    let mo := Mix.measureOld q1 det s.mix
+    let m2 := Mix.conditioned f mo.2 mo.1
+    let m3 := if reset then Mix.mapTab (fun t => t.resetZ q1 false det) m2 else m2
+    .ok { mix := m3, creg := setRec s.creg c (if mo.2.headD false then 1 else 0)
+          lossMeas := s.lossMeas || Mix.total s.mix != 1
+          nonUniform := s.nonUniform || !uniformMeas q1 det s.mix }
+  else .error .assertion
+
+def stabMeasZOld (n q1 c : Nat) (det : Bool) (s : StabSt) : Except Err StabSt :=
+  if q1 < n then
+    let mo := Mix.measureOld q1 det s.mix
+    .ok { mix := mo.1, creg := setRec s.creg c (if mo.2.headD false then 1 else 0)
+          lossMeas := s.lossMeas || Mix.total s.mix != 1
+          nonUniform := s.nonUniform || !uniformMeas q1 det s.mix }
+  else .error .assertion
+
+/-- (before the F2 repair) `StabilizerCompiler.compile_one_gate` on the mixture (a plain `Stabilizer` is the one-branch case) -/
+def stabGateOld (np n : Nat) (det : Bool) (op : COp) (s : StabSt) : Except Err StabSt :=
+  let q1 := qIndex np op.r1 op.t1
+  let q2 := qIndex np op.r2 op.t2
+  match op.kind with
+  | .input | .output | .identity => .ok s
+  | .h => stabMap1 n q1 (·.hGate q1) s
+  | .s => stabMap1 n q1 (·.sGate q1) s
+  | .sdg => stabMap1 n q1 (·.sdgGate q1) s
+  | .x => stabMap1 n q1 (·.xGate q1) s
+  | .y => stabMap1 n q1 (·.yGate q1) s
+  | .z => stabMap1 n q1 (·.zGate q1) s
+  | .cnot => stabMap2 n q1 q2 (·.cnotGate q1 q2) s
+  | .cz => stabMap2 n q1 q2 (·.czGate q1 q2) s
+  | .ccnot => stabClassicalOld n q1 q2 op.c det (·.xGate q2) false s
+  | .ccz => stabClassicalOld n q1 q2 op.c det (·.zGate q2) false s
+  | .mcr => stabClassicalOld n q1 q2 op.c det (·.xGate q2) true s
+  | .measZ => stabMeasZOld n q1 op.c det s
+  | .param => .error .runtime
+
+def stabActOld (np n : Nat) (det : Bool) (ops : Array COp) (s : StabSt) : Act → Except Err StabSt
+  | .gate k => stabGateOld np n det (ops.getD k { kind := .identity }) s
   | .noise _ _ q nm => (Mix.applyNoise nm q s.mix).map fun m => { s with mix := m }
   | .replace _ => .error .runtime
 
@@ -445,6 +534,32 @@ def stabGo (noiseSim : Bool) (np n : Nat) (det : Bool) (arr : Array COp) : List 
 def compileStab (noiseSim : Bool) (ne np nc : Nat) (det : Bool) (ops : List COp) : Except Err StabSt :=
   let n := ne + np
   stabGo noiseSim np n det ops.toArray ops 0 { mix := [(1, (Tab.ket0 n).norm)], creg := List.replicate nc 0 }
+
+/-! ### the compile loop with the per-branch measurement of graphiq before the F2 repair -/
+
+def runStabActsOld (np n : Nat) (det : Bool) (arr : Array COp) : List Act → StabSt → Except Err StabSt
+  | [], s => .ok s
+  | a :: as, s =>
+    match stabActOld np n det arr s a with
+    | .ok s' => runStabActsOld np n det arr as s'
+    | .error e => .error e
+
+def stabGoOld (noiseSim : Bool) (np n : Nat) (det : Bool) (arr : Array COp) : List COp → Nat → StabSt → Except Err StabSt
+  | [], _, s => .ok s
+  | op :: rest, k, s =>
+    if op.kind == .param then .error .runtime          -- `type(op) not in self.ops`
+    else
+      match placeOp noiseSim .stab np op k with
+      | .error e => .error e
+      | .ok acts =>
+        match runStabActsOld np n det arr acts s with
+        | .ok s' => stabGoOld noiseSim np n det arr rest (k + 1) s'
+        | .error e => .error e
+
+/-- (before the F2 repair) `StabilizerCompiler.compile`: operation by operation, the placement tree decides the actions -/
+def compileStabOld (noiseSim : Bool) (ne np nc : Nat) (det : Bool) (ops : List COp) : Except Err StabSt :=
+  let n := ne + np
+  stabGoOld noiseSim np n det ops.toArray ops 0 { mix := [(1, (Tab.ket0 n).norm)], creg := List.replicate nc 0 }
 
 def runDmActs (np n : Nat) (det : Bool) (arr : Array COp) : List Act → DmSt → Except Err DmSt
   | [], s => .ok s
